@@ -839,8 +839,32 @@ def work_pyset(item, res):
                           sig="pyget", note="unpack of a fixed variable")
 
 
+X0, X1, X2 = ("reg", "x", 0), ("reg", "x", 1), ("loc", "x", 2)
+SR1, SW0 = ("reg", "sr", 1), ("reg", "sw", 0)
+NAMED = [      # shapes behind the documented findings: in every tier
+    (("cmp", ">", ("//", ("const", 2.5), X1), X2), None),
+    (("cmp", "<=", ("-", ("const", 3), X1), X2), None),
+    (("cmp", "==", ("%", ("const", 7), X1), X2), None),
+    (("cmp", ">", X0, ("const", 0.29)), None),
+    (("*", X0, X1), ("reg", "x")),
+    (("+", X0, X1), ("reg", "sr")),
+    (("+", SR1, ("const", 0.29)), ("reg", "x")),
+    (("/", ("const", 0.29), X1), ("reg", "x")),
+    (("-", ("const", 2), X1), ("reg", "sr")),
+    (("+", SW0, X1), ("reg", "x")),
+    (("/", SR1, X0), ("loc", "x")),
+]
+
+
+def work_named(item, res):
+    tree, dest, seed = item
+    trees = [tree[2], tree[3]] if tree[0] == "cmp" else [tree]
+    envs = list(vectors(var_leaves(trees), seed, False))
+    run_case(tree, dest, None, envs, res, True)
+
+
 def work(item, res):
-    {"d1": work_d1, "copy": work_copy, "d2": work_d2, "cmpx": work_cmpx,
+    {"named": work_named, "d1": work_d1, "copy": work_copy, "d2": work_d2, "cmpx": work_cmpx,
      "const": work_const, "pyset": work_pyset}[item[0]](item[1:], res)
 
 
@@ -848,7 +872,7 @@ def items_for(ctx):
     leaves, ints, floats, dests = alphabet(ctx)
     consts = [("const", c) for c in floats + ints]
     ke = 9 if ctx.quick else 6
-    items = []
+    items = [("named", tree, dest, ctx.seed) for tree, dest in NAMED]
     for lt in leaves + consts:
         for rt in leaves + consts:
             if lt[0] == "const" and rt[0] == "const":
@@ -883,6 +907,9 @@ def items_for(ctx):
             items.append(("cmpx", a, b, c, op1, cmps, ctx.seed, ke, cap))
     variants = VARIANTS[:3] if ctx.quick else VARIANTS
     n = 0
+    for k0 in (83600, 83650):       # 21474.83648 * 100000 = 2^31
+        items.append(("const", 1, 21474, k0, True))
+        items.append(("const", -1, 21474, k0, False))
     for sign, ip in variants:
         for k0 in range(0, FB, CHUNK):
             n += 1
@@ -925,7 +952,7 @@ def run(ctx):
     res = core.pmap(ctx, work, items, chunk=6)
     res.cov["work_items"] = len(items)
     res.cov["families"] = {k: sum(1 for i in items if i[0] == k)
-                           for k in ("d1", "copy", "d2", "cmpx", "const",
+                           for k in ("named", "d1", "copy", "d2", "cmpx", "const",
                                      "pyset")}
     res.cov["states"] = len(res.nontrivial)
     res.cov.setdefault("transitions", 0)
